@@ -1,3 +1,6 @@
-import pandas as pd, dask_expr as dx
-df = dx.from_pandas(pd.DataFrame({"a": [1., 2, 3, 4], "k": [4., 3, 2, 1]}), npartitions=2)
-print(df[df.a > 100].set_index("k").compute())
+# F33: set_index when no row has a non-null key at run time
+import pandas as pd, numpy as np, dask_expr as dx
+pdf = pd.DataFrame({"a": [0., 1, 3, 3], "k": [np.nan, 0., 0., 3.]})
+pieces = [pdf.iloc[0:2], pdf.iloc[2:4]]
+df = dx.from_map(lambda i: pieces[i], [0, 1], meta=pdf.iloc[:0])
+print(df[df.a < 1].set_index("k").compute())        # keeps only the row whose key is NaN
